@@ -76,7 +76,7 @@ Proof.
 Qed.
 Print Assumptions pad_in_bounds_pow2_refuted.
 
-(** 2. kick maps (tree after `fix:` 49f6ba4).  Every table entry updateSM writes names a cell
+(** 2. kick maps (tree after `fix:` fbbfcf6).  Every table entry updateSM writes names a cell
     of the grid row, for every offset whatsoever (kicks far beyond the grid included) ... *)
 Theorem kick_table_in_bounds :
   forall n it o j1, 0 < n -> 0 <= fst (sm_entry_g n it o j1) < n.
@@ -114,7 +114,7 @@ Print Assumptions kick_reads_in_bounds.
 Example kick_reads_example : kick_read_y 8 0 3 7 6 = None /\ kick_read_y 8 0 3 1 6 = Some 27.
 Proof. vm_compute. split; reflexivity. Qed.
 
-(** 3. element-wise impedance sum (tree after `fix:` c1e89a5, loop bound min of both lengths):
+(** 3. element-wise impedance sum (tree after `fix:` 8635aab, loop bound min of both lengths):
     every cell read and written is inside both tables, whatever their lengths *)
 Theorem impedance_sum_in_bounds :
   forall lhs_n rhs_n i, In i (imp_sum_reads lhs_n rhs_n) -> 0 <= i < rhs_n /\ 0 <= i < lhs_n.
@@ -146,7 +146,7 @@ Print Assumptions float_to_unsigned_defined.
 (** KickMap::updateSM converts only inside its range test, where the conversion is defined,
     and there it is the table of Model/Kick.v (so C01/C02/C08 speak about the same code) *)
 Theorem updateSM_conversion_defined :
-  forall n o, 0 < n <= 2 ^ 32 -> sm_in_range n o = true -> sm_defined n o = true.
+  forall n o, 0 < n <= 2 ^ 32 -> sm_in_range n o = true -> sm_defined_pinned n o = true.
 Proof. exact sm_in_range_defined. Qed.
 Print Assumptions updateSM_conversion_defined.
 
@@ -158,7 +158,7 @@ Print Assumptions updateSM_is_kick_model.
 (** pinned tree (conversion before the test): undefined for an offset below -n/2-1,
     e.g. n = 32, offset -20 (KickMap.cpp:356; fixed finding) *)
 Theorem updateSM_conversion_pinned_refuted :
-  exists n o, sm_defined n o = false /\ sm_entry_c n 4 o 0 = None.
+  exists n o, sm_defined_pinned n o = false /\ sm_entry_c n 4 o 0 = None.
 Proof. exists 32, (Qcz (-20)). vm_compute. split; reflexivity. Qed.
 Print Assumptions updateSM_conversion_pinned_refuted.
 
